@@ -123,22 +123,38 @@ pub fn run(ctx: &Ctx) -> Report {
         }
         let mut j = w as u64;
         while j < n_other {
-            let sc = staking_history(seed, j);
-            let (a, b) = (staking_transcript(&sc), staking_transcript(&sc));
+            // generation and both replays run on fresh instances; a panic in one of them (a fresh instance that
+            // cannot be set up or driven any more) is a difference between executions, not a harness problem
+            let r = catch(|| {
+                let sc = staking_history(seed, j);
+                (staking_transcript(&sc), staking_transcript(&sc), sc)
+            });
             rep.evaluations += 1;
             rep.bump("c19/staking/twin_compared");
-            if a != b {
-                rep.violate("C19", "twin-instance-transcript-differs", first_diff(&a, &b), json!({"engine": "e7", "mode": "twin-staking", "history": j, "case": sc}));
+            match r {
+                Ok((a, b, sc)) => {
+                    if a != b {
+                        rep.violate("C19", "twin-instance-transcript-differs", first_diff(&a, &b), json!({"engine": "e7", "mode": "twin-staking", "history": j, "case": sc}));
+                    }
+                    rep.fingerprints.insert(fp_str(&sha(&a)));
+                }
+                Err(p) => rep.violate("C19", "fresh-instance-panics-where-earlier-identical-instances-worked", p.clone(), json!({"engine": "e7", "mode": "twin-staking", "history": j, "panic": p})),
             }
-            rep.fingerprints.insert(fp_str(&sha(&a)));
-            let bc = bank_history(seed, j);
-            let (a, b) = (bank_transcript(&bc), bank_transcript(&bc));
+            let r = catch(|| {
+                let bc = bank_history(seed, j);
+                (bank_transcript(&bc), bank_transcript(&bc), bc)
+            });
             rep.evaluations += 1;
             rep.bump("c19/bank/twin_compared");
-            if a != b {
-                rep.violate("C19", "twin-instance-transcript-differs", first_diff(&a, &b), json!({"engine": "e7", "mode": "twin-bank", "history": j, "case": bc}));
+            match r {
+                Ok((a, b, bc)) => {
+                    if a != b {
+                        rep.violate("C19", "twin-instance-transcript-differs", first_diff(&a, &b), json!({"engine": "e7", "mode": "twin-bank", "history": j, "case": bc}));
+                    }
+                    rep.fingerprints.insert(fp_str(&sha(&a)));
+                }
+                Err(p) => rep.violate("C19", "fresh-instance-panics-where-earlier-identical-instances-worked", p.clone(), json!({"engine": "e7", "mode": "twin-bank", "history": j, "panic": p})),
             }
-            rep.fingerprints.insert(fp_str(&sha(&a)));
             j += ctx.workers as u64;
         }
         rep
